@@ -14,7 +14,7 @@ use serde_json::{json, Value};
 pub const META: Meta = Meta {
     id: "C03",
     level: "exploration",
-    rule: "Cases are (entity length L, Range header value) pairs: (a) every set of 1-2 specs (1-3 for L<=4) over all three spec forms with positions 0..=L+2 for L in 1..=8 [exhaustive]; (b) the boundary product L x positions from {0,1,L-1,L,L+1,2^32,2^63,2^64-2,2^64-1,2^64,10^25}, 1-2 specs exhaustive and 3 specs sampled; (c) proptest threshold sets aimed at the multipart/200 decision; (d) near-miss and garbage headers; (e) zero-padded spellings (widths up to 26) of every boundary position. Oracle: independent u128 resolver returning the set of outcomes the statement allows. Non-trivial = grammatical header whose resolution clamps, uses a suffix, drops a spec or yields several ranges, or a non-grammatical header; distinct by fingerprint of (L, header).",
+    rule: "Cases are (entity length L, Range header value) pairs: (a) every set of 1-2 specs (1-3 for L<=4) over all three spec forms with positions 0..=L+2 for L in 1..=8 [exhaustive]; (b) the boundary product L x positions from {0,1,L-1,L,L+1,2^32,2^63,2^64-2,2^64-1,2^64,10^25}, 1-2 specs exhaustive and 3 specs sampled; (c) proptest threshold sets aimed at the multipart/200 decision; (d) near-miss and garbage headers; (e) zero-padded spellings (widths up to 26) of every boundary position; (f) sets of 9 to 1500 small ranges of a large entity (the number of specs as a dimension; multipart mandatory). Oracle: independent u128 resolver returning the set of outcomes the statement allows. Non-trivial = grammatical header whose resolution clamps, uses a suffix, drops a spec or yields several ranges, or a non-grammatical header; distinct by fingerprint of (L, header).",
     assumptions: &[
         "harness entity honours the Entity contract (exact bytes, fused streams)",
         "lenient-but-RFC-grammatical forms (OWS before commas, empty list elements, unit in another case, last<first) may be either ignored or resolved; both are accepted; numbers of 2^64 and beyond make the header unparseable (200); zero-padded numbers that fit u64 are grammatical and must be resolved",
@@ -438,7 +438,39 @@ pub fn run(cx: &Cx) -> Acc {
     acc.merge(par_proptest(cx, "threshold", 50_000 * n, threshold_strategy, |c, acc| check(c, acc)));
     acc.merge(par_proptest(cx, "near-miss", 40_000 * n, near_miss_strategy, |c, acc| check(c, acc)));
     acc.merge(par_proptest(cx, "random", 60_000 * n, random_strategy, |c, acc| check(c, acc)));
+    // (e) the *number* of specs: hundreds to over a thousand small ranges of a large entity (far
+    // below the half-entity threshold, so a multipart answer of exactly those ranges is mandatory).
+    acc.merge(par_proptest(cx, "many-specs", 1_500 * n, many_specs_strategy, |c, acc| check(c, acc)));
     acc
+}
+
+fn many_specs_strategy() -> BoxedStrategy<Case> {
+    (
+        proptest::sample::select(&[400_000u64, 10_000_000, 1 << 40, u64::MAX][..]),
+        prop_oneof![2 => 9usize..=64, 2 => 65usize..=199, 3 => 200usize..=260, 2 => 261usize..=700, 1 => 701usize..=1500],
+        any::<u64>(),
+        0u8..3,
+    )
+        .prop_map(|(len, n, salt, mode)| {
+            let mut v = String::from("bytes=");
+            let mut s = salt;
+            for i in 0..n {
+                s = crate::util::splitmix64(s);
+                if i > 0 {
+                    v.push_str(if s & 1 == 0 { "," } else { ", " });
+                }
+                let a = (s >> 8) % len;
+                let w = (s >> 40) % 3;
+                match (mode, s % 9) {
+                    (1, 0) => v.push_str(&format!("{}-", len)), // dropped in between
+                    (2, _) => v.push_str(&format!("{a}-{a}")),  // one-byte parts
+                    (_, 1) => v.push_str(&format!("-{}", w + 1)),
+                    _ => v.push_str(&format!("{a}-{}", a.saturating_add(w))),
+                }
+            }
+            Case { len, range: Bs(v.into_bytes()), plan: vec![], headers: vec![] }
+        })
+        .boxed()
 }
 
 pub fn replay(_cx: &Cx, _phase: &str, case: &Value, acc: &mut Acc) -> Check {
